@@ -15,6 +15,13 @@ var registry = []prop{
 		Assume: pbfAssume,
 	},
 	{
+		ID: "C06", Pkg: "props/c06", Level: "fault_enumeration", Hang: true,
+		Quick:  tierCfg{Shards: 1, Scale: 1, TimeoutS: 400},
+		Thor:   tierCfg{Shards: 1, Scale: 12, TimeoutS: 3000},
+		Fuzz:   []fuzzTarget{{Name: "FuzzScan", Seconds: 240}},
+		Assume: append([]string{"damage classes are the ones the statement lists; shorter-than-needed columns and indexes beyond the string table are 'out-of-range references', longer-than-needed id columns are not judged", "a zlib bit flip counts as damage only if Go's compress/zlib rejects the stream or inflates it differently"}, pbfAssume...),
+	},
+	{
 		ID: "C08", Pkg: "props/c08", Level: "exploration",
 		Quick:  tierCfg{Shards: 1, Scale: 1, TimeoutS: 300},
 		Thor:   tierCfg{Shards: 16, Scale: 4, TimeoutS: 1500},
